@@ -57,10 +57,10 @@ def spec(env, op, F, drs, dt, acc, R0, p0, v0, rots, g):
     return out
 
 
-def make_integrator(env, pp, R0, p0, v0, g, reset):
+def make_integrator(env, pp, R0, p0, v0, g, reset, tag=''):
     T = env.T
     imu = env.load(IMU)
-    cov3 = T.stack([env.vec('gyro_cov', 3)], 0); cova = T.stack([env.vec('acc_cov', 3)], 0)
+    cov3 = T.stack([env.vec('gyro_cov' + tag, 3)], 0); cova = T.stack([env.vec('acc_cov' + tag, 3)], 0)
     itg = imu.IMUPreintegrator(pos=p0, rot=lie(pp, 'SO3', R0), vel=v0, gravity=g, gyro_cov=cov3, acc_cov=cova, prop_cov=False, reset=reset)
     return itg
 
@@ -84,6 +84,15 @@ for F in (1, 2):
                     env.eq(f'frame {k + 1}: velocity is v0 + R0 dv_k', out['vel'][0, k], ref[k]['vel'])
                     env.eq(f'frame {k + 1}: position is p0 + R0 dp_k + v0 t_k', out['pos'][0, k], ref[k]['pos'])
                 env.holds('rotation output is an SO3 LieTensor', out['rot'].ltype is pp.SO3_type)
+                # an explicit init_state overrides the state stored in the module - everywhere: in the composition with the integrated
+                # increments AND in the gravity compensation of the integration itself
+                R1 = env.unitquat('R1', regimes=('generic',))
+                other = make_integrator(env, pp, R1, p0 + 1, v0 * 2, g, reset=True, tag='_b')
+                out2 = other(DT, G, Ac, rot=Rk, init_state={'pos': itg.pos, 'rot': itg.rot, 'vel': itg.vel})
+                for k in range(F):
+                    env.eq(f'explicit init_state, frame {k + 1}: rotation', raw(out2['rot'])[0, k], ref[k]['rot'])
+                    env.eq(f'explicit init_state, frame {k + 1}: velocity', out2['vel'][0, k], ref[k]['vel'])
+                    env.eq(f'explicit init_state, frame {k + 1}: position', out2['pos'][0, k], ref[k]['pos'])
         mk()
 
 
@@ -156,10 +165,10 @@ def ranks(env):
     env.eq('rot: rank 1 equals rank 3', raw(outs[0]['rot']), raw(outs[2]['rot']))
 
 
-def make_integrator(env, pp, R0, p0, v0, g, reset):
+def make_integrator(env, pp, R0, p0, v0, g, reset, tag=''):
     T = env.T
     imu = env.load(IMU)
-    cov3 = T.stack([env.vec('gyro_cov', 3)], 0); cova = T.stack([env.vec('acc_cov', 3)], 0)
+    cov3 = T.stack([env.vec('gyro_cov' + tag, 3)], 0); cova = T.stack([env.vec('acc_cov' + tag, 3)], 0)
     return imu.IMUPreintegrator(pos=p0, rot=lie(pp, 'SO3', R0), vel=v0, gravity=g, gyro_cov=cov3, acc_cov=cova, prop_cov=not reset or False, reset=reset) \
         if reset else _nr(imu, pp, T, env, p0, R0, v0, g, cov3, cova)
 
